@@ -51,10 +51,13 @@ class Canon:
     * comparison operands are ordered (`a > b` is printed as `b < a`), `!` over comparisons folded.
     """
 
-    def __init__(self, body, inline=True, max_depth=8):
+    def __init__(self, body, inline=True, max_depth=8, force=False):
+        """force=True: provenance mode — every let-bound local (also `mut` ones) is replaced by its
+        initialiser regardless of size; used to answer "where does this value come from"."""
         self.body = body
         self.inline = inline
         self.max_depth = max_depth
+        self.force = force
         self.defs = {}     # lid -> ("let", init, pos, mutable) | ("param", idx)
         self.assigned = set()
         self._names = {}
@@ -137,10 +140,10 @@ class Canon:
         if k in ("Try", "Cast", "AddrOf", "Unary"):
             return self._head(e["e"])
         if k == "MethodCall":
-            c = H.strip_generics(H.callee(e) or e["name"])
+            c = H.canon_path(H.callee(e) or e["name"])
             return "::".join(c.split("::")[-2:])
         if k == "Call":
-            c = H.strip_generics(H.callee(e) or "")
+            c = H.canon_path(H.callee(e) or "")
             return "::".join(c.split("::")[-2:]) if c else "call"
         if k == "Index":
             return self._head(e["e"]) + "[]"
@@ -163,6 +166,8 @@ class Canon:
         if d[0] == "param":
             return "$%d%s" % (d[1], d[2])
         stable = not d[3] and n["lid"] not in self.assigned
+        if self.force and depth < self.max_depth:
+            return self.c(d[1], depth + 1) + d[2]
         if self.inline and stable and depth < self.max_depth and self._simple(d[1]):
             return self.c(d[1], depth + 1) + d[2]
         key = n["lid"]
@@ -189,7 +194,7 @@ class Canon:
             return self.local(n, d)
         if k == "Item":
             v = n.get("val")
-            p = H.strip_generics(n.get("inst") or n["path"])
+            p = H.canon_path(n.get("inst") or n["path"])
             return p
         if k == "Lit":
             return H.show(n)
@@ -223,12 +228,12 @@ class Canon:
         if k == "Index":
             return self.c(n["e"], d) + "[" + self.c(n["idx"], d) + "]"
         if k == "MethodCall":
-            name = H.strip_generics(n.get("inst") or n.get("callee") or n["name"])
+            name = H.canon_path(n.get("inst") or n.get("callee") or n["name"])
             if n["name"] == "is_empty" and not n["args"]:
                 return "(0 == %s.len())" % self.c(n["recv"], d)
             return "%s(%s)" % (name, ", ".join([self.c(n["recv"], d)] + [self.c(a, d) for a in n["args"]]))
         if k == "Call":
-            if H.strip_generics(H.callee(n) or "") == "core::ops::range::RangeInclusive::new":
+            if H.canon_path(H.callee(n) or "") == "core::ops::range::RangeInclusive::new":
                 return "%s..=%s" % (self.c(n["args"][0], d), self.c(n["args"][1], d))
             return "%s(%s)" % (self.c(n["f"], d), ", ".join(self.c(a, d) for a in n["args"]))
         if k == "Try":
@@ -237,19 +242,29 @@ class Canon:
             return "(" + ", ".join(self.c(a, d) for a in n["elems"]) + ")"
         if k == "Array":
             return "[" + ", ".join(self.c(a, d) for a in n["elems"]) + "]"
-        if k == "StructLit" and H.strip_generics(n["path"].get("path", "")).startswith("core::ops::range::Range"):
+        if k == "StructLit" and H.canon_path(n["path"].get("path", "")).startswith("core::ops::range::Range"):
             fs = {f["name"]: self.c(f["e"], d) for f in n["fields"]}
             incl = "Inclusive" in n["path"]["path"]
             return "%s..%s%s" % (fs.get("start", ""), "=" if incl else "", fs.get("end", ""))
-        if k == "Call" and H.strip_generics(H.callee(n) or "") == "core::ops::range::RangeInclusive::new":
+        if k == "Call" and H.canon_path(H.callee(n) or "") == "core::ops::range::RangeInclusive::new":
             return "%s..=%s" % (self.c(n["args"][0], d), self.c(n["args"][1], d))
         if k == "StructLit":
-            return H.strip_generics(n["path"].get("path", "?")) + "{" + ", ".join(
+            return H.canon_path(n["path"].get("path", "?")) + "{" + ", ".join(
                 f["name"] + ": " + self.c(f["e"], d) for f in sorted(n["fields"], key=lambda f: f["name"])) + "}"
         if k == "Repeat":
             return "[%s; %s]" % (self.c(n["e"], d), n["ty"])
         if k == "Closure":
             return "|..| " + H.show(n["body"])
+        if k == "If":
+            r = "if %s { %s }" % (self.c(n["cond"], d), self.c(n["then"], d))
+            if n.get("else") is not None:
+                r += " else { %s }" % self.c(n["else"], d)
+            return r
+        if k == "Let":
+            return "let %s = %s" % (H.show_pat(n["pat"]), self.c(n["init"], d))
+        if k == "Match":
+            return "match %s {%s}" % (self.c(n["scrut"], d), ", ".join(
+                H.show_pat(a["pat"]) + " => " + self.c(a["body"], d) for a in n["arms"]))
         return H.show(n)
 
 
